@@ -116,7 +116,7 @@ _ex(r'catch\s*\(\s*(\w+)\s*\)\s*\{[^}]*\bvar\s+\1\b', 'K12 catch(b){var b=...} (
 _ex(r'[{,]\s*(undefined|Infinity)\s*[,}]|\b(undefined|Infinity)\s*(=(?!=)|\+\+|--|[-+*/%&|^]=|<<=|>>=|\*\*=)|(\+\+|--)\s*(undefined|Infinity)\b',
     'K13 undefined/Infinity as shorthand property or assignment/update target ({undefined} -> {0[0]}, Infinity=1 -> 1/0=1: SyntaxError)')
 _EMPTY = r"""(?:""|'')"""
-_ex(r"""(?<![\\"'\w])""" + _EMPTY + r"""(?=\s*\?(?![.?]))|\b(if|while)\s*\(\s*[!(\s]*""" + _EMPTY + r"""[)\s]*\)|!\s*\(*\s*""" + _EMPTY +
+_ex(r"""(?<![\\"'])""" + _EMPTY + r"""(?=\s*\?(?![.?]))|\b(if|while)\s*\(\s*[!(\s]*""" + _EMPTY + r"""[)\s]*\)|!\s*\(*\s*""" + _EMPTY +
     r"""|[?:]\s*\(*""" + _EMPTY + r"""\s*\)*\s*[:;)]""",
     'K14 the empty string literal as a condition (treated as truthy: ""?a:b -> a)')
 _ex(r'0[xX][0-9a-fA-F_]*[eEbB][0-9a-fA-F_]*n?\s*(\?|\)|&&|\|\||:)|!\s*0[xX][0-9a-fA-F_]*[eEbB]|\d[eE]-\d{3,}',
@@ -136,6 +136,8 @@ _ex(r'class\b[^{]*\{[^}]*\basync\s*\n', 'K21 class field named async followed by
 _ex(r'\\u005[cC]|\\u\{0*5[cC]\}', 'K22a \\u005c / \\u{5c} in string literals (decoded to an unescaped backslash)')
 _ex(r'\\[23][0-7][0-7]', 'K22b legacy octal escapes \\200..\\377 in string literals (written as one raw byte: invalid UTF-8)')
 _ex(r'\\00+[0-9]|\\0[89]', 'K22c \\00 / \\000 / \\0 followed by a digit in string literals (\\0007 -> \\07; \\09 inside a template)')
+_ex(r"""\\0["']\s*\+\s*["'][0-9]""", "K22e '\\0'+'1' merged to \"\\01\"")
+_ex(r'0[xX][0-9a-fA-F_]{11,}n|0[bB][01_]{64,}n|0[oO][0-7_]{22,}n', 'K24 long hexadecimal/binary/octal BigInt literals (the n suffix is dropped)')
 _ex(r'\bstatic\s+[0-9.]', 'K23 static class fields with numeric names (static 1=2 -> static1=2)')
 
 # ===================================================================================================
@@ -2970,14 +2972,22 @@ def test_variants(ctx):
 
 
 def corpus_programs(ctx):
+    """tests/js/corpus: the whole files, and every function of them as a standalone program (js/c01_corpus.js)"""
     d = os.path.join(vlib.REPO, 'tests', 'js', 'corpus')
     out = []
-    if os.path.isdir(d):
-        for fn in sorted(os.listdir(d)):
-            try:
-                out.append(open(os.path.join(d, fn), encoding='utf-8').read())
-            except UnicodeDecodeError:
-                pass
+    if not os.path.isdir(d):
+        return out
+    files = [os.path.join(d, fn) for fn in sorted(os.listdir(d))]
+    for fn in files:
+        try:
+            out.append(open(fn, encoding='utf-8').read())
+        except UnicodeDecodeError:
+            pass
+    p = ctx.path('gen', 'corpus-functions.ndjson')
+    vlib.run(['node', '--expose-internals', '--stack-size=8000', os.path.join(vlib.ROOT, 'js', 'c01_corpus.js'), p] + files, timeout=300)
+    fns = sorted(set(o['src'] for o in vlib.read_ndjson(p)))
+    ctx.rnd.shuffle(fns)
+    out += fns[: 250 if ctx.quick() else 6000]
     return out
 
 
@@ -3008,5 +3018,5 @@ def families(ctx, exe):
     fams.append(dict(name='precedence', sources=precedence_matrix(ctx), nenv=1, probe=0, batched=True))
     fams.append(dict(name='literals', sources=literal_programs(ctx), nenv=1, probe=1, batched=True))
     fams.append(dict(name='asi', sources=asi_programs(ctx), nenv=3 if quick else 6, probe=1))
-    fams.append(dict(name='corpus', sources=corpus_programs(ctx), nenv=1 if quick else 2, probe=0, timeout_ms=4000))
+    fams.append(dict(name='corpus', sources=corpus_programs(ctx), nenv=3 if quick else 5, probe=1))
     return fams
